@@ -109,6 +109,56 @@ def ecdsa_case(maxlen):
                 {"blob": "valid name + 0..%d symbolic bytes, or <=8 arbitrary bytes" % maxlen}, max_paths=200000)
 
 
+def rsa_signature_bytes_case():
+    """a well-formed RSA signature blob whose signature string has any length: the library is asked about exactly
+    those bytes, left-padded with zeros up to the key length when shorter (PuTTY omits leading zeros), never
+    stripped or shortened - so an over-long or otherwise altered signature is the library's to refuse"""
+    def fn(ctx):
+        import struct
+        import paramiko.message as PM
+        import paramiko.util as PU
+        import paramiko.rsakey as RK
+        from cryptography.exceptions import InvalidSignature
+        KEYBYTES = 4                                    # a 32-bit "key": the arithmetic is what matters, not the size
+        n = ctx.choice("len(signature)", range(0, 7))
+        sig = ctx.bytes("signature", n)
+        seen = []
+
+        class Pub:
+            key_size = KEYBYTES * 8
+
+            def verify(self, sign, data, pad, h):
+                seen.append(sign)
+                raise InvalidSignature()
+        k = RK.RSAKey.__new__(RK.RSAKey)
+        k.key = Pub()
+        k.public_blob = None
+        pre = b"\x00\x00\x00\x07ssh-rsa" + struct.pack(">I", n)
+        blob = (SBytes(list(pre)) + sig) if ctx.symbolic else pre + bytes(sig)
+        with ctx.patches(std_patches(PM, PU, RK, builtins=("int", "len"))):
+            try:
+                res = k.verify_ssh_sig(b"data", PM.Message(blob))
+            except Exception as e:      # noqa
+                ctx.prove(False, "raises:" + exc_key(e)[4:])
+                return
+        ctx.prove(res is False and len(seen) == 1, "verdict-is-the-library's")
+        got = seen[0]
+        want_len = max(n, KEYBYTES)
+        ctx.prove(len(got) == want_len, "library-gets-max(len,key-length)-bytes(no-stripping,no-shortening)")
+        if len(got) == want_len:
+            pad = want_len - n
+            items = list(got.items) if type(got) is SBytes else list(got)
+            ok = True
+            for i in range(pad):
+                ok = ok & (lift(items[i]) == 0)
+            for i in range(n):
+                ok = ok & (lift(items[pad + i]) == lift((sig.items if type(sig) is SBytes else list(sig))[i]))
+            ctx.prove(ok, "library-gets-the-blob's-signature-bytes-behind-zero-padding")
+    return Case("rsa-signature-bytes", fn, ["library-gets-max(len,key-length)-bytes(no-stripping,no-shortening)",
+                                            "library-gets-the-blob's-signature-bytes-behind-zero-padding"],
+                {"signature": "0..6 symbolic bytes against a 4-byte key length"})
+
+
 def ecdsa_integers_case():
     """a well-formed ECDSA signature blob whose two integers are arbitrary mpints: what reaches the library is exactly
     the pair the blob encodes (RFC 4251 two's complement), and a negative integer is never turned into a valid one"""
@@ -207,4 +257,4 @@ def ed25519_case(maxlen):
 def cases(tier):
     _probe_contracts()
     k = 10 if tier == "quick" else 16
-    return [rsa_case(k + 4), ecdsa_case(k), ed25519_case(k), ecdsa_integers_case()]
+    return [rsa_case(k + 4), ecdsa_case(k), ed25519_case(k), ecdsa_integers_case(), rsa_signature_bytes_case()]
